@@ -170,13 +170,13 @@ def _lat_data(prim, cp, svecs, multi, s2pp, p2s, det):
         bad = max(bad, float(np.abs(v - R[k]).max()))
     if kq is None:
         return None, R, 1.0
-    # hypothesis: e_q(svec(k,i,l)) = e_q(svec(p2s[s2pp k], i, 0)) * zeta^(kq.R_k)
+    # hypothesis: e_q(svec(k,i,l)) = e_q(svec(k0, i, 0)) * zeta^(kq.(R_k - R_k0)),  k0 = p2s[s2pp k]
     err = 0.0
     for iq, qv in enumerate(cp):
         e = np.exp(2j * np.pi * (svecs @ qv))
         for k in range(ns):
-            z = np.exp(2j * np.pi * float(kq[iq] @ R[k]) / det)
             k0 = p2s[s2pp[k]]
+            z = np.exp(2j * np.pi * float(kq[iq] @ (R[k] - R[k0])) / det)
             for i in range(multi.shape[1]):
                 m, a = multi[k, i]
                 ref = e[multi[k0, i, 1]] * z
